@@ -52,7 +52,8 @@ pub fn replay_behaviour(steps: &[Value]) -> Option<(usize, String, Value)> {
         let r: Result<Result<(), Value>, String> = guarded(|| {
             match op {
                 "c_from" => {
-                    h = Hand::from_words(&words_of(&a["words"]));
+                    let init = words_of(&a["words"]);
+                    h = if a["parts"].as_u64() == Some(1) { Hand::from_parts(&init) } else { Hand::from_words(&init) };
                     let post = words_of(&e["post"]);
                     if h.to_arr() != post || h.accessors() != post || h.iter_vec() != post {
                         return Err(json!({"got": hilo_arr(&h.to_arr())}));
